@@ -36,6 +36,7 @@ const rule = "reference loop: event sequences from a simulation of the version l
 type replayFile struct {
 	Loop *SeqCase `json:"loop,omitempty"`
 	DB   *DBCase  `json:"db,omitempty"`
+	VL   *VLCase  `json:"vl,omitempty"`
 }
 
 func main() {
@@ -44,20 +45,57 @@ func main() {
 		childMain(strings.TrimPrefix(a.Extra, "panicchild="))
 		return
 	}
+	for _, f := range strings.Split(a.Extra, ",") {
+		if strings.HasPrefix(f, "part=") {
+			childPart(a, strings.TrimPrefix(f, "part="))
+			return
+		}
+	}
 	res := vlib.NewResult("C07", a.Out, rule)
 	defer res.Write()
 	if a.Replay != "" {
 		replay(a, res)
 		return
 	}
-	corpus(a, res)
-	t0 := time.Now()
-	kcases := loopPart(a, res)
-	res.Extra["loop_part_s"] = time.Since(t0).Seconds()
-	t1 := time.Now()
-	dbPart(a, res)
-	res.Extra["db_part_s"] = time.Since(t1).Seconds()
-	res.WriteCases("From GL Require Import Conc.RefLoop Corr.C07Run.", "c07case", "mismatches", kcases, 16)
+	var kcases []string
+	for _, part := range []string{"corpus", "loop", "vl", "db"} {
+		if part == "corpus" && !strings.Contains(a.Extra, "corpus=") {
+			continue
+		}
+		kcases = append(kcases, runPart(a, res, part)...)
+	}
+	res.WriteCases("From GL Require Import Conc.RefLoop Corr.C07Run.", "c07case", "mismatches", spread(kcases, 16), 16)
+}
+
+// spread reorders the cases so that the few very long ones land in different shards of WriteCases.
+func spread(cases []string, shards int) []string {
+	if len(cases) < 2*shards {
+		return cases
+	}
+	per := (len(cases) + shards - 1) / shards
+	var long, short []string
+	for _, c := range cases {
+		if len(c) > 50000 {
+			long = append(long, c)
+		} else {
+			short = append(short, c)
+		}
+	}
+	out := make([]string, 0, len(cases))
+	li, si := 0, 0
+	for len(out) < len(cases) {
+		if len(out)%per == 0 && li < len(long) {
+			out = append(out, long[li])
+			li++
+		} else if si < len(short) {
+			out = append(out, short[si])
+			si++
+		} else {
+			out = append(out, long[li])
+			li++
+		}
+	}
+	return out
 }
 
 // corpus re-runs the stored cases (earlier failures, minimised) before the generated ones.
@@ -122,6 +160,13 @@ func replayOne(path string, res *vlib.Result, tries int) bool {
 				return false
 			}
 		}
+	case w.Case.VL != nil:
+		res.Eval("replay:"+path, true)
+		if d, _, _ := runVLCase(*w.Case.VL); d != "" {
+			fmt.Println("replay fails:", d)
+			res.Violate(d, replayFile{VL: w.Case.VL})
+			return false
+		}
 	default:
 		fmt.Println("replay file holds no case:", path)
 		return false
@@ -161,8 +206,9 @@ func loopPart(a vlib.Args, res *vlib.Result) []string {
 	var wg sync.WaitGroup
 	for w := 0; w < 16; w++ {
 		wg.Add(1)
-		go func() {
+		go func(w int) {
 			defer wg.Done()
+			defer clearInflight(w)
 			for j := range jobs {
 				r := j.r
 				var sh Shape
@@ -189,8 +235,9 @@ func loopPart(a vlib.Args, res *vlib.Result) []string {
 						kind += "(cut)"
 					}
 				}
-				o := RunLoopCase(evs)
 				c := SeqCase{Kind: kind, Events: evs}
+				setInflight(w, replayFile{Loop: &c})
+				o := RunLoopCase(evs)
 				if !j.mal && !o.EnvOK {
 					res.Violate("harness: the generator produced a sequence its own protocol checker rejects ("+kind+")", replayFile{Loop: &c})
 				}
@@ -227,7 +274,7 @@ func loopPart(a vlib.Args, res *vlib.Result) []string {
 					}
 				}
 			}
-		}()
+		}(w)
 	}
 	for i := 0; i < nseq; i++ {
 		jobs <- job{i, root.Fork(), false}
@@ -343,6 +390,87 @@ func shrinkLoop(c SeqCase) *SeqCase {
 	return &SeqCase{Kind: c.Kind + " (shortest failing prefix)", Events: evs}
 }
 
+// ---------------------------------------------------------------- version layer
+
+// vlPart drives the real version layer and checks that what it sends satisfies env_ok.
+func vlPart(a vlib.Args, res *vlib.Result) []string {
+	n, kcap := 400, 16
+	if a.Thorough() {
+		n, kcap = 30000, 60
+	}
+	root := vlib.NewRNG(a.Seed ^ 0x7e1)
+	jobs := make(chan int)
+	cases := make([]VLCase, n)
+	for i := range cases {
+		r := root.Fork()
+		cases[i] = genVLCase(r, r.Range(10, 70))
+		cases[i].NoSyncFlag = r.Chance(1, 6)
+	}
+	var mu sync.Mutex
+	var out []string
+	var wg sync.WaitGroup
+	for w := 0; w < 16; w++ {
+		wg.Add(1)
+		go func(w int) {
+			defer wg.Done()
+			defer clearInflight(w)
+			for i := range jobs {
+				c := cases[i]
+				setInflight(w, replayFile{VL: &c})
+				d, logs, stats := runVLCase(c)
+				res.Eval(fmt.Sprintf("vl%d", i), stats["commits"] > 0 && (stats["failed_commits"] > 0 || stats["sessions"] > 1))
+				res.Count("vl_cases", 1)
+				for k, v := range stats {
+					res.Count("vl_"+k, v)
+				}
+				for _, l := range logs {
+					res.Count("vl_events", len(l))
+				}
+				if d != "" {
+					res.Violate("version layer: "+d, replayFile{VL: shrinkVL(c)})
+				}
+				mu.Lock()
+				for _, l := range logs {
+					if len(out) < kcap && len(l) > 4 && len(l) < 200 {
+						out = append(out, CoqProtoCase(l))
+					}
+				}
+				mu.Unlock()
+			}
+		}(w)
+	}
+	for i := range cases {
+		jobs <- i
+	}
+	close(jobs)
+	wg.Wait()
+	res.Count("k_protocol_sequences", len(out))
+	return out
+}
+
+func shrinkVL(c VLCase) *VLCase {
+	fails := func(ops []VLOp) bool {
+		cc := c
+		cc.Ops = ops
+		d, _, _ := runVLCase(cc)
+		return d != ""
+	}
+	ops := append([]VLOp(nil), c.Ops...)
+	for chunk := len(ops) / 2; chunk >= 1; chunk /= 2 {
+		for start := 0; start+chunk <= len(ops); {
+			cand := append(append([]VLOp(nil), ops[:start]...), ops[start+chunk:]...)
+			if fails(cand) {
+				ops = cand
+			} else {
+				start += chunk
+			}
+		}
+	}
+	out := c
+	out.Ops = ops
+	return &out
+}
+
 // ---------------------------------------------------------------- DB level
 
 func runDBCase(c DBCase) (string, map[string]int) {
@@ -359,6 +487,10 @@ func runDBCase(c DBCase) (string, map[string]int) {
 		return runCrashSweep(c)
 	case "recover":
 		return runRecover(c)
+	case "mfault":
+		return runManifestFault(c)
+	case "txniter":
+		return runTxnIter(c)
 	}
 	return "unknown scenario " + c.Scenario, nil
 }
@@ -374,6 +506,15 @@ func tweak(r *vlib.RNG, c *dbh.Cfg, scenario string) {
 	case "txn":
 		c.WriteBuffer = []int{1024, 2048, 4096}[r.Intn(3)]
 		c.NoLargeBatchTxn = false
+	case "mfault":
+		if c.WriteBuffer > 8192 {
+			c.WriteBuffer = 4096
+		}
+		c.NoSync = false
+	case "txniter":
+		c.WriteBuffer = []int{1024, 2048, 4096}[r.Intn(3)]
+		c.BlockCache = -1
+		c.BlockSize = []int{64, 256}[r.Intn(2)]
 	case "fault", "space", "crash", "recover":
 		if c.WriteBuffer > 8192 {
 			c.WriteBuffer = 4096
@@ -388,9 +529,9 @@ func dbPart(a vlib.Args, res *vlib.Result) {
 		count    int
 		n        int
 	}
-	specs := []spec{{"pinned", 4, 40}, {"mix", 14, 260}, {"txn", 6, 0}, {"fault", 12, 0}, {"space", 4, 400}, {"crash", 4, 300}, {"recover", 3, 300}}
+	specs := []spec{{"pinned", 8, 40}, {"mix", 40, 260}, {"txn", 10, 0}, {"fault", 24, 0}, {"mfault", 12, 0}, {"txniter", 8, 0}, {"space", 6, 400}, {"crash", 8, 300}, {"recover", 4, 300}}
 	if a.Thorough() {
-		specs = []spec{{"pinned", 24, 600}, {"pinned", 24, 40}, {"mix", 300, 900}, {"txn", 60, 0}, {"fault", 200, 0}, {"space", 40, 1500}, {"crash", 60, 600}, {"recover", 40, 800}}
+		specs = []spec{{"pinned", 24, 600}, {"pinned", 24, 40}, {"mix", 300, 900}, {"txn", 60, 0}, {"fault", 200, 0}, {"mfault", 100, 0}, {"txniter", 60, 0}, {"space", 40, 1500}, {"crash", 60, 600}, {"recover", 40, 800}}
 	}
 	if strings.Contains(a.Extra, "search") && !a.Thorough() {
 		for i := range specs {
@@ -424,10 +565,12 @@ func dbPart(a vlib.Args, res *vlib.Result) {
 	var wg sync.WaitGroup
 	for w := 0; w < 16; w++ {
 		wg.Add(1)
-		go func() {
+		go func(w int) {
 			defer wg.Done()
+			defer clearInflight(w)
 			for i := range jobs {
 				c := cases[i]
+				setInflight(w, replayFile{DB: &c})
 				d, stats := runDBCase(c)
 				nontriv := stats["table_compactions"] >= 1 && stats["exact_listing_checks"] >= 1
 				switch c.Scenario {
@@ -439,6 +582,10 @@ func dbPart(a vlib.Args, res *vlib.Result) {
 					nontriv = stats["images_opened"] > 0
 				case "recover":
 					nontriv = stats["tables_after_recover"] > 0
+				case "mfault":
+					nontriv = stats["fault_hit"] > 0
+				case "txniter":
+					nontriv = stats["txn_tables_created"] > 0
 				case "pinned":
 					nontriv = nontriv && stats["short_of_version_changes"] == 0
 				}
@@ -464,7 +611,7 @@ func dbPart(a vlib.Args, res *vlib.Result) {
 					res.Violate(fmt.Sprintf("[%s] %s [%s]", c.Scenario, d, c.Cfg.String()), replayFile{DB: shrinkDB(&cc, d)})
 				}
 			}
-		}()
+		}(w)
 	}
 	for i := range cases {
 		jobs <- i
